@@ -418,7 +418,8 @@ class Controller:
             self._pump(min(left, 0.2))
 
     def pending(self):
-        """{name: Call} for every process that is stopped at a gate right now (no waiting)"""
+        """{name: Call} for every process that is stopped at a gate right now (no waiting: a process
+        that has just been stepped may still be on its way to its next gate -- call settle() first)"""
         self._pump(0)
         out = {}
         for n, p in self.procs.items():
@@ -436,6 +437,11 @@ class Controller:
     def _release(self, name, word, tid=None, wait=True, timeout=None):
         p = self._proc(name)
         a = self._pending_actor(p, tid)
+        deadline = time.time() + (timeout if timeout is not None else self.timeout)
+        while a is None and p.exited is None and time.time() < deadline:
+            # the process may still be on its way to its next gate
+            self._pump(0.05)
+            a = self._pending_actor(p, tid)
         if a is None:
             raise GateError("%s is not stopped at a gate" % p.name)
         c = a.pending
